@@ -32,7 +32,13 @@ RULE = ("(i) every tool x writer x --backup x stale-.bak x document combination 
         "-e inject=<syscall>:error=ENOSPC|EIO:when=k for every k-th call of every syscall of the observed sequence: with "
         "--backup the target or the .bak must hold the original bytes; the observed steps must be a prefix of the model's "
         "list followed by flushes to files open for writing (or a complete recovered run), and the model's file-system "
-        "semantics applied to the observed steps must give the real bytes.  distinct_nontrivial = distinct runs whose "
+        "semantics applied to the observed steps must give the real bytes; (iv) symbolic links: every --backup writer "
+        "(yaml-set YAML/JSON, yaml-merge --overwrite of the LHS itself / of a third file, eyaml-rotate-keys) x target form "
+        "(regular file, relative link, absolute link, link into a subdirectory, chain of two links) x stale-.bak form (none, "
+        "regular file, link to an unrelated file, dangling link, link to the target, link to the file the target resolves to): "
+        "after exit 0 the bytes read THROUGH target.bak must equal the bytes read through the target before the run, and "
+        "target.bak must not resolve to the inode the target resolves to (direct check on the real files; links are outside "
+        "the Lean file-system model, these runs are not compared with it).  distinct_nontrivial = distinct runs whose "
         "tool got as far as reading its input.")
 
 PY = "/venv/bin/python"
@@ -207,9 +213,46 @@ def snapshot(d):
     for root, _dirs, files in os.walk(d):
         for fn in files:
             p = os.path.join(root, fn)
-            with open(p, "rb") as fh:
-                snap[os.path.relpath(p, d)] = fh.read()
+            try:
+                with open(p, "rb") as fh:
+                    snap[os.path.relpath(p, d)] = fh.read()
+            except FileNotFoundError:      # a dangling symbolic link
+                snap[os.path.relpath(p, d)] = None
     return snap
+
+
+def link_state(p):
+    """what a path is and what is read through it: {islink, dest, bytes (None: nothing readable), id (dev, inode) }"""
+    st = {"islink": os.path.islink(p), "dest": None, "bytes": None, "id": None}
+    if st["islink"]:
+        st["dest"] = os.readlink(p)
+    try:
+        with open(p, "rb") as fh:
+            st["bytes"] = fh.read()
+            fst = os.fstat(fh.fileno())
+            st["id"] = (fst.st_dev, fst.st_ino)
+    except OSError:
+        pass
+    return st
+
+
+def run_linked(case, d, sub):
+    """a run whose target and/or stale .bak is a symbolic link: no strace, the state of both paths before/after"""
+    tgt = os.path.join(d, case["target"])
+    pre = {"t": link_state(tgt), "b": link_state(tgt + ".bak")}
+    env = dict(os.environ)
+    env["PYTHONPATH"] = core.REPO
+    env[core.GUARD] = "1"
+    env.pop("YPV_EYAML_LOG", None)
+    env.pop("YPV_EYAML_FAULT", None)
+    cmd = [PY, "-W", "ignore", "-m", "yamlpath.commands." + case["tool"]] + [sub(a) for a in case["args"]]
+    try:
+        p = subprocess.run(cmd, cwd=core.REPO, env=env, stdin=subprocess.DEVNULL, stdout=subprocess.PIPE,
+                           stderr=subprocess.PIPE, timeout=RUN_TIMEOUT)
+    except subprocess.TimeoutExpired:
+        return {"timeout": True, "dir": d}
+    post = {"t": link_state(tgt), "b": link_state(tgt + ".bak")}
+    return {"rc": p.returncode, "dir": d, "pre": pre, "post": post, "stderr": p.stderr.decode("utf-8", "replace")[-300:]}
 
 
 def run_case(case):
@@ -224,9 +267,14 @@ def run_case(case):
             if text == "<DIR>":
                 os.makedirs(p)
                 continue
+            os.makedirs(os.path.dirname(p), exist_ok=True)
             with open(p, "wb") as fh:
                 fh.write(text.encode("utf-8"))
+        for name, dest in (case.get("links") or {}).items():
+            os.symlink(sub(dest), os.path.join(d, name))
         watch = [os.path.join(d, w) for w in case["watch"]]
+        if case["kind"] == "linked":
+            return run_linked(case, d, sub)
         before = snapshot(d)
         tracefile = os.path.join(SCRATCH_ROOT, os.path.basename(d) + ".trace")
         cmd = [STRACE, "-f", "-y", "-xx", "-s", "4000000", "-o", tracefile]
@@ -530,6 +578,91 @@ def multidoc_success_cases(tier):
     return cases
 
 
+# the form of the target: (name, real file relative to the run directory, links {name: destination})
+TARGET_FORMS = [
+    ("regular", None, {}),
+    ("rel-link", "real-@", {"@": "real-@"}),
+    ("abs-link", "real-@", {"@": "{D}/real-@"}),
+    ("subdir-link", "store/v1/@", {"@": "store/v1/@"}),
+    ("chain", "real-@", {"@": "mid-@", "mid-@": "{D}/real-@"}),
+]
+# the stale .bak: (name, files, links); @ = target name, % = real file of the target
+STALE_FORMS = [
+    ("none", {}, {}),
+    ("regular", {"@.bak": "STALE BACKUP\n"}, {}),
+    ("link-to-other", {"keep.txt": "UNRELATED FILE\n"}, {"@.bak": "keep.txt"}),
+    ("dangling-link", {}, {"@.bak": "{D}/gone-@.bak"}),
+    ("link-to-target", {}, {"@.bak": "@"}),
+    ("link-to-real", {}, {"@.bak": "%"}),
+]
+
+
+def linked_cases(tier):
+    """(iv) --backup runs of every writer whose target and/or stale .bak is a symbolic link"""
+    rhs = "b:\n  - z\nnew: {k: v}\n"
+    rot = ["-x", FAKE_EYAML, "-r", "{D}/priv2", "-u", "{D}/pub2", "-i", "{D}/priv1", "-c", "{D}/pub1"]
+    ydocs = [("small", DOC_SMALL), ("anch", DOC_ANCH), ("uni", DOC_UNI)]
+    writers = [
+        ("yaml_set", "setYaml", "t.yaml", None, lambda t: ["-g", "a", "-a", "changed", "-b", "{D}/" + t]),
+        ("yaml_set", "setJson", "t.json", [("json", DOC_JSON)], lambda t: ["-g", "a", "-a", "2", "-b", "{D}/" + t]),
+        ("yaml_merge", "mergeOverwrite", "l.yaml", None, lambda t: ["-S", "-w", "{D}/" + t, "-b", "{D}/" + t, "{D}/r.yaml"]),
+        ("yaml_merge", "mergeOverwriteThird", "out.yaml", None, lambda t: ["-S", "-w", "{D}/" + t, "-b", "{D}/l.yaml", "{D}/r.yaml"]),
+        ("eyaml_rotate_keys", "rotate", "t.yaml", [("rot1", ROT_DOC1), ("rot2", ROT_DOC2)], lambda t: ["-b"] + rot + ["{D}/" + t]),
+    ]
+    cases = []
+    for tool, writer, tname, docs, mkargs in writers:
+        for tform, real, tlinks in TARGET_FORMS:
+            for sform, sfiles, slinks in STALE_FORMS:
+                if tform == "regular" and sform in ("none", "regular", "link-to-real"):
+                    continue                     # no link involved (covered by (i)) / same as link-to-target
+                dn, doc = (docs or ydocs)[len(cases) % len(docs or ydocs)]
+                realname = (real or "@").replace("@", tname)
+                ren = lambda x: x.replace("@", tname).replace("%", realname)
+                files = {realname: doc}
+                if writer == "mergeOverwriteThird":
+                    files = {realname: "previous: content\n", "l.yaml": doc}
+                if tool == "yaml_merge":
+                    files["r.yaml"] = rhs
+                if tool == "eyaml_rotate_keys":
+                    files.update(KEYS)
+                files.update({ren(k): v for k, v in sfiles.items()})
+                links = {ren(k): ren(v) for k, v in list(tlinks.items()) + list(slinks.items())}
+                cases.append({"kind": "linked", "tool": tool, "writer": writer, "doc": dn, "backup": True, "stale": sform != "none",
+                              "target_form": tform, "stale_form": sform, "files": files, "links": links, "target": tname,
+                              "watch": [tname, tname + ".bak"], "args": mkargs(tname)})
+    return cases
+
+
+def judge_linked(chk, case, res):
+    """the --backup clause on the real files, read through whatever links there are"""
+    tag = "%s/%s" % (case["tool"], case["writer"])
+    form = "target=%s stale-bak=%s" % (case["target_form"], case["stale_form"])
+    pre, post = res["pre"], res["post"]
+    if res["rc"] != 0:
+        # a refused run is no violation as long as it lost nothing
+        if post["t"]["bytes"] != pre["t"]["bytes"]:
+            chk.violation("linked-failed-run-changed-target:" + tag, "exit %d (%s) but the bytes read through the target changed" % (
+                res["rc"], form), replayable(case))
+        else:
+            chk.disagreement("success-case-failed:" + tag, "expected a successful run (%s), exit %d: %s" % (
+                form, res["rc"], res["stderr"][-160:]), replayable(case))
+        return
+    if post["t"]["bytes"] == pre["t"]["bytes"]:
+        chk.disagreement("linked-run-wrote-nothing:" + tag, "exit 0 but the target reads as before (%s)" % form, replayable(case))
+        return
+    if post["b"]["bytes"] != pre["t"]["bytes"]:
+        what = "is missing/unreadable" if post["b"]["bytes"] is None else (
+            "reads the NEW content" if post["b"]["bytes"] == post["t"]["bytes"] else "reads other bytes")
+        chk.violation("backup-not-preimage:%s:links" % tag,
+                      "after a successful --backup run (%s) the bytes read through %s.bak are not the pre-image: it %s%s" % (
+                          form, case["target"], what, " (it is a symbolic link to %s)" % post["b"]["dest"] if post["b"]["islink"] else ""),
+                      replayable(case))
+    if post["b"]["id"] is not None and post["b"]["id"] == post["t"]["id"]:
+        chk.violation("backup-aliases-target:" + tag,
+                      "after a successful --backup run (%s) %s.bak resolves to the same inode as the target: the original bytes are "
+                      "stored nowhere" % (form, case["target"]), replayable(case))
+
+
 def inject_cases(succ_results, tier, rng):
     """One case per (syscall name, ordinal) of every successful traced run."""
     out = []
@@ -679,10 +812,12 @@ def run(chk: core.Check):
         res = run_all([case])[0]
         print("replay: rc=%s before=%s after=%s" % (res.get("rc"), {k: len(v) for k, v in res.get("before", {}).items()},
                                                      {k: len(v) for k, v in res.get("after", {}).items()}))
-        stage1 = [case] if case["kind"] != "inject" else []
+        stage1 = [case] if case["kind"] not in ("inject", "linked") else []
         stage2 = [case] if case["kind"] == "inject" else []
+        stage3 = [case] if case["kind"] == "linked" else []
         r1 = [res] if stage1 else []
         r2 = [res] if stage2 else []
+        r3 = [res] if stage3 else []
     else:
         stage1 = success_cases(tier) + multidoc_success_cases(tier) + prewrite_cases(tier)
         rng.shuffle(stage1)
@@ -690,6 +825,21 @@ def run(chk: core.Check):
         succ = [(c, r) for c, r in zip(stage1, r1) if c["kind"] == "success"]
         stage2 = inject_cases(succ, tier, rng)
         r2 = run_all(stage2)
+        stage3 = linked_cases(tier)
+        r3 = run_all(stage3)
+
+    # ---- (iv) symbolic links: direct check only (the model's file system has no links)
+    for case, res in zip(stage3, r3):
+        if res.get("timeout"):
+            raise core.Infra("tool run timed out: " + json.dumps(brief(case))[:300])
+        chk.seen(("linked", case["tool"], case["writer"], case["target_form"], case["stale_form"]) if res["pre"]["t"]["bytes"] is not None else None)
+        chk.count("kind:linked")
+        chk.count("tool:" + case["tool"])
+        chk.count("exit:%s" % ("0" if res["rc"] == 0 else "nonzero"))
+        chk.count("linked:target=" + case["target_form"])
+        chk.count("linked:stale=" + case["stale_form"])
+        chk.out_of_model += 1
+        judge_linked(chk, case, res)
 
     allc = list(zip(stage1, r1)) + list(zip(stage2, r2))
     for case, res in allc:
@@ -799,7 +949,8 @@ def run(chk: core.Check):
                     chk.disagreement("fault-cleanup:%s:%s" % (tag, case["inject"][0]),
                                      "after the fault the tool performed steps other than flushes to open files: %s" % (
                                          [(s["k"], os.path.basename(s["p"])) for s in post_steps][:8]), replayable(case))
-    chk.extra_cov["tool_runs"] = len(allc)
+    chk.extra_cov["tool_runs"] = len(allc) + len(stage3)
+    chk.extra_cov["linked_runs"] = len(stage3)
     chk.extra_cov["fault_injections"] = len(stage2)
     chk.notes.append("faults below the system-call level (torn pages, power loss) are outside the model")
     return chk
